@@ -31,7 +31,7 @@ func verifNewEnv() *verifEnv {
 	e := &verifEnv{dir: dir, path: filepath.Join(dir, "list_a")}
 	e.srv = httptest.NewServer(http.HandlerFunc(func(w http.ResponseWriter, r *http.Request) {
 		e.nDown++
-		if e.chunk && e.fault != verifFaultTruncated && e.fault != verifFaultStatus404 && e.fault != verifFaultStatus500 {
+		if e.chunk && e.fault != verifFaultTruncated && e.fault != verifFaultStatus404 && e.fault != verifFaultStatus500 && e.fault != verifFaultStatus206 {
 			// flushing the header first makes the server stream the body
 			w.WriteHeader(http.StatusOK)
 			w.(http.Flusher).Flush()
@@ -41,6 +41,10 @@ func verifNewEnv() *verifEnv {
 			http.Error(w, "not found", http.StatusNotFound)
 		case verifFaultStatus500:
 			http.Error(w, "oops", http.StatusInternalServerError)
+		case verifFaultStatus206:
+			// a successful-class answer that is not the complete list
+			w.WriteHeader(http.StatusPartialContent)
+			_, _ = w.Write([]byte(verifServed[:9]))
 		case verifFaultEmptyBody:
 			if !e.chunk {
 				w.WriteHeader(http.StatusOK)
